@@ -128,7 +128,11 @@ pub fn gen_adversarial(t: &mut Tape, world_tape: &[u8], stats: &mut GenStats) ->
         }
         3 => {
             // input cycles incl. non-null ones
-            let v = *t.pick(&["$a: InA", "$a: InA!", "$c: InC", "$c: [InC!]!", "$d: InD", "$a: InA, $c: InC, $d: InD!", "$t: InTail", "$t: InTail!", "$u: InTail2", "$u: [InTail2]", "$t: InTail, $a: InA"]);
+            // the last ones carry object-literal defaults that leave out members lying on a cycle of required input types
+            let v = *t.pick(&[
+                "$a: InA", "$a: InA!", "$c: InC", "$c: [InC!]!", "$d: InD", "$a: InA, $c: InC, $d: InD!", "$t: InTail", "$t: InTail!", "$u: InTail2", "$u: [InTail2]", "$t: InTail, $a: InA",
+                "$a: InA = {x: 2}", "$a: InA = {b: {y: []}}", "$a: InA = {}", "$c: InC = {}", "$c: InC = {c: {d: {n: 1}}}", "$t: InTail = {x: 1}", "$u: InTail2 = {}", "$u: InTail2 = {d: {n: 3}}", "$t: InTail = {a: {x: 1}}, $a: InA = {x: 1}",
+            ]);
             let args = if v.contains("$a") && v.contains("$c") { "a: $a, c: $c" } else if v.contains("$t") && v.contains("$a") { "t: $t, a: $a" } else if v.contains("$a") { "a: $a" } else if v.contains("$c: [") || v.contains("$u: [") { "" } else if v.contains("$c") { "c: $c" } else if v.contains("$t") { "t: $t" } else if v.contains("$u") { "u: $u" } else { "" };
             let query = format!("query Q({}) {{ inp{} }}\n", v, if args.is_empty() { String::new() } else { format!("({})", args) });
             Adv { kind: "input_cycle", schema: BASE_SCHEMA.into(), ext: "graphql", query, cycle: None, nontrivial: true }
@@ -413,7 +417,7 @@ fn fuzz_campaign(report: &mut Report) {
 }
 
 pub fn run(report: &mut Report, replay: Option<&Value>) {
-    report.rule = "adversarial grammar (tape-decoded): fragment-spread cycles of length 1-6 on objects / interfaces / unions, with and without `__typename`, direct or through fields; input-type cycles incl. non-null ones and @oneOf; selection nesting and type-expression nesting up to 64; 2-3 inline fragments for the same variant at every level of a selection 10-28 deep (input linear in the depth); interfaces without implementors, self-referential unions, dangling names; documents broken by token deletion / duplication, truncated schemas; introspection JSON with members removed or nulled; valid cases mixed in. Every input runs in an isolated worker process (8 MiB stack, like a proc macro). Oracle: the call ends with Ok, Err or a panic carrying a message inside the watchdog; a signal, abort or repeatable silence is a violation. Non-trivial: the input contains a cycle, nesting >= 16, or is syntactically broken; distinct by hash(schema, document).".into();
+    report.rule = "adversarial grammar (tape-decoded): fragment-spread cycles of length 1-6 on objects / interfaces / unions, with and without `__typename`, direct or through fields; input-type cycles incl. non-null ones and @oneOf, also with object-literal default values that omit members on the cycle; selection nesting and type-expression nesting up to 64; 2-3 inline fragments for the same variant at every level of a selection 10-28 deep (input linear in the depth); interfaces without implementors, self-referential unions, dangling names; documents broken by token deletion / duplication, truncated schemas; introspection JSON with members removed or nulled; valid cases mixed in. Every input runs in an isolated worker process (8 MiB stack, like a proc macro). Oracle: the call ends with Ok, Err or a panic carrying a message inside the watchdog; a signal, abort or repeatable silence is a violation. Non-trivial: the input contains a cycle, nesting >= 16, or is syntactically broken; distinct by hash(schema, document).".into();
     report.assumptions = vec!["a hang is only called after it repeats alone with a 60 s limit".into(), "graphql-parser's own recursion limit (50 brackets) is third-party behaviour: its parse errors are an accepted `Err`".into()];
     if let Some(v) = replay {
         replay_one(report, v);
